@@ -6,14 +6,24 @@ use processor::{DefaultHost, Kernel, MemAdviceProvider, ProgramInfo, StackInputs
 use serde_json::{json, Value};
 use vm_core::{chiplets::hasher::Digest, Felt, StarkField};
 
-fn options(name: &str) -> ProvingOptions {
+/// parameter set x hash function (the documented parameter sets are air/src/options.rs's constants)
+fn options(name: &str, hash: &str) -> ProvingOptions {
+    let h = match hash {
+        "blake3_256" => HashFunction::Blake3_256,
+        "rpo256" => HashFunction::Rpo256,
+        _ => HashFunction::Blake3_192,
+    };
+    use FieldExtension::{Cubic, Quadratic};
     match name {
-        "regular96" => ProvingOptions::with_96_bit_security(false),
-        "regular128" => ProvingOptions::with_128_bit_security(false),
-        "recursive96" => ProvingOptions::with_96_bit_security(true),
-        "recursive128" => ProvingOptions::with_128_bit_security(true),
+        "regular96" => ProvingOptions::new(27, 8, 16, Quadratic, 8, 255, h),
+        "regular128" => ProvingOptions::new(27, 16, 21, Cubic, 8, 255, h),
+        "recursive96" => ProvingOptions::new(27, 8, 16, Quadratic, 4, 7, h),
+        "recursive128" => ProvingOptions::new(27, 16, 21, Cubic, 4, 7, h),
+        "q26" => ProvingOptions::new(26, 8, 16, Quadratic, 8, 255, h),
+        "g15" => ProvingOptions::new(27, 8, 15, Quadratic, 8, 255, h),
+        "b4" => ProvingOptions::new(27, 4, 16, Quadratic, 8, 255, h),
         // fewer queries, no grinding: outside every accepted set
-        _ => ProvingOptions::new(8, 8, 0, FieldExtension::Quadratic, 8, 255, HashFunction::Blake3_192),
+        _ => ProvingOptions::new(8, 8, 0, Quadratic, 8, 255, h),
     }
 }
 
@@ -66,7 +76,7 @@ pub fn pipeline(inp: &str, outp: &str) {
                 continue;
             }
         };
-        let opts = options(sc["opts"].as_str().unwrap_or("regular96"));
+        let opts = options(sc["opts"].as_str().unwrap_or("regular96"), sc["hash"].as_str().unwrap_or("blake3_192"));
         let via_bytes = sc["via_bytes"].as_bool().unwrap_or(false);
         let r = catch(|| {
             let host = DefaultHost::new(MemAdviceProvider::from(advice_inputs(&sc)));
